@@ -72,6 +72,7 @@ class Extract:
         self.closures = {}      # n -> [(text, uline)]
         self.injects = []       # dict(where, k, anchor, tag, lines)
         self.rewrites = []      # dict(count, old, new, label)
+        self.droparms = []      # dict(header, label): match arm / block whose body is replaced by vpanic()
         self.log = {}
 
     def render(self):
@@ -103,6 +104,19 @@ class Extract:
         body, n4 = replace_macro_calls(body, bm, ["panic", "unreachable", "unimplemented", "todo"], lambda n, a: "vpanic()")
         self.log["rewrites"]["S3"] = n3
         self.log["rewrites"]["S4"] = n4
+        for da in self.droparms:
+            bm = mask(body)
+            hits = [m.start() for m in re.finditer(re.escape(da["header"]), body)]
+            if len(hits) != 1:
+                raise LostAnchor(f"{self.file}::{self.fn}: droparm header `{da['header']}` matched {len(hits)} times")
+            ob2 = hits[0] + len(da["header"]) - 1
+            if body[ob2] != "{":
+                raise UnitError("droparm header must end with `{`")
+            cb2 = match_close(bm, ob2)
+            nl = body.count("\n", ob2, cb2 + 1)
+            first = line_of(src, ob) + body.count("\n", 0, ob2)
+            body = body[:ob2] + "{ vpanic() }" + "\n" * nl + body[cb2 + 1:]
+            self.log["rewrites"].setdefault("dropped_arms", []).append(dict(header=da["header"], lines=[first, first + nl], label=da["label"]))
         for rw in self.rewrites:
             c = body.count(rw["old"])
             if c != rw["count"]:
@@ -329,6 +343,12 @@ def parse_unit(path):
                 inj = dict(where=m.group(1), k=int(m.group(2)) if m.group(2) else None, anchor=m.group(3), tag=m.group(4), lines=[])
                 cur.injects.append(inj)
                 section = inj["lines"]
+            elif d.startswith("droparm "):
+                m = re.match(r"droparm\s+`(.*)`(?:\s*::\s*(.*))?$", d)
+                if not m:
+                    raise UnitError(f"{path}:{ln}: bad droparm directive")
+                cur.droparms.append(dict(header=m.group(1), label=m.group(2) or "R8 arm not under contract"))
+                section = None
             elif d.startswith("rewrite "):
                 m = re.match(r"rewrite\s+(\d+)\s+`(.*)`\s*=>\s*`(.*)`(?:\s*::\s*(.*))?$", d)
                 if not m:
